@@ -39,10 +39,25 @@ class Listener(object):
         self.log.append(["expired", name])
 
 
+class InjectedListenerError(RuntimeError):
+    pass
+
+
+@implementer(IAddrListener)
+class Raiser(object):
+    """a second listener whose 'expired' handler fails"""
+    def addrmap_added(self, addr):
+        pass
+
+    def addrmap_expired(self, name):
+        raise InjectedListenerError("listener raises")
+
+
 class Run(object):
-    def __init__(self, tick, syntax):
+    def __init__(self, tick, syntax, lmode="plain"):
         self.tick = tick
         self.syntax = syntax
+        self.lmode = lmode
         self.clock = task.Clock()
         clock = self.clock
 
@@ -60,6 +75,23 @@ class Run(object):
         self.am.scheduler = IReactorTime(self.clock)
         self.l = Listener()
         self.am.add_listener(self.l)
+        if lmode == "probe":
+            # the listener looks the mapping up from inside its 'expired' handler: it must be gone already
+            am, log_ = self.am, self.l.log
+            run = self
+
+            def probing(name, orig=self.l.addrmap_expired):
+                orig(name)
+                for key in [name] + [a for a in ADDRS.values()]:
+                    try:
+                        hit = am.find(key)
+                    except KeyError:
+                        continue
+                    if hit.name == name:
+                        run.l.log.append(["stale-in-callback", name])
+            self.l.addrmap_expired = probing
+        elif lmode == "raise":
+            self.am.add_listener(Raiser())
         self.exc = []
         self.nstep = 0
 
@@ -91,6 +123,15 @@ class Run(object):
                 self.am.update(self.line(e))        # no reactor turn: zero-delay timers run at the next Advance (dt may be 0)
             else:
                 self.clock.advance(e["dt"] * self.tick)
+        except InjectedListenerError:
+            # a real reactor logs what a timer call raises and goes on with the other calls that are due
+            # (an event is not a reactor turn: nothing else runs then)
+            for _ in range(4 if e["a"] != "Event" else 0):
+                try:
+                    self.clock.advance(0)
+                    break
+                except InjectedListenerError:
+                    continue
         except Exception as ex:
             self.exc.append(repr(ex))
             self.l.log.append(["exception", repr(ex)[:60]])
@@ -117,11 +158,11 @@ class Run(object):
         return dict(names=names, addrs=addrs, log=log)
 
 
-def replay(script, tick, syntax):
-    run = Run(tick, syntax)
+def replay(script, tick, syntax, lmode="plain"):
+    run = Run(tick, syntax, lmode)
     steps = []
     for e in script:
         s = dict(e)
         s["obs"] = run.step(e)
         steps.append(s)
-    return dict(steps=steps, tick=tick, syntax=syntax, errors=run.exc[:2])
+    return dict(steps=steps, tick=tick, syntax=syntax, lmode=lmode, errors=run.exc[:2])
